@@ -11,11 +11,15 @@ def run(rep, tier):
     rep.encoded(PluginManager._apply_plugins_on_object)
     for f in ("shorter_results", "extract_operations", "client_forward_refs", "no_reimports"):
         rep.encoded(f"ariadne_codegen/contrib/{f}.py")
+    import os
+
+    env = {"VERIF_C15_THOROUGH": "0" if tier == "quick" else "1"}
+    os.environ.update(env)
     from harness import C15_plugins as H
 
     parts = xh.write_module("hC15_parts", H.parts_source(16))
     targets = [f"{parts}.check_plugins_p{i}" for i in range(16)] + [f"{MOD}.check_hook_order", f"{MOD}.twin_all_plugins_ok"]
-    res = xh.run_targets(targets, timeout=900 if tier == "quick" else 3000)
+    res = xh.run_targets(targets, timeout=900 if tier == "quick" else 3000, env_extra=env)
     xh.fold(rep, parts, [r for r in res if r.target.startswith(parts)])
     xh.fold(rep, MOD, [r for r in res if r.target.startswith(MOD)])
     rep.coverage.update({
@@ -25,7 +29,7 @@ def run(rep, tier):
         "results": [{"target": r.target.rsplit('.', 1)[-1], "status": r.status, "wall_s": round(r.wall, 1)} for r in res],
     })
     rep.sample({"plugins": ["ShorterResults", "ExtractOperations", "ClientForwardRefs", "NoReimports", "identity"], "operation": "One", "expected_return": "One.model_validate(data).user"})
-    rep.assume("transport stubbed; canned conformant payload per operation", "ordered selections of 4 plugins are not enumerated (5 of 5 in two orders are)")
+    rep.assume("transport stubbed; canned conformant payload per operation", "quick tier: ordered selections of 4 plugins are not enumerated (5 of 5 in two orders are); the thorough tier enumerates all 326 ordered selections")
 
 
 def replay(data):
